@@ -12,7 +12,7 @@ import registry  # noqa: E402
 BASELINE = ("cd /repo && cargo nextest run --workspace --no-fail-fast --tool-config-file pb:/w/lib/nextest.toml --profile pb "
             "--test-threads 8 --offline || cargo test --workspace --no-fail-fast --offline")
 
-COLL = """ Collection lattices (iterator-adapter bodies, outside Verus): SetUnion and MapUnion merge / partial_cmp / eq / is_bot / lattice_from are checked by Kani against set-union / key-wise-merge-with-invisible-bottoms oracles written on arrays, for operands of <= 2 elements in every cheap representation (ArraySet/OptionSet/SingletonSet/ArrayMap/OptionMap/SingletonMap, harness TinySet/TinyMap as Extend receivers), including cross-representation comparisons; VecUnion (length <= 2) against the index-wise-merge-with-extension model; UnionFind (items {0,1,2}, reachable states) against an equivalence-closure matrix (thorough tier). These are bounded by operand size, not proved."""
+COLL = """ SetUnion::merge and is_bot are additionally verified by Verus generically in the backing collection against the trusted collection contract (Len::len is the cardinality of the element set, Extend::extend is union; false for Vec used as a set, which is outside the claim). Collection lattices (iterator-adapter bodies, outside Verus): SetUnion and MapUnion merge / partial_cmp / eq / is_bot / lattice_from are checked by Kani against set-union / key-wise-merge-with-invisible-bottoms oracles written on arrays, for operands of <= 2 elements in every cheap representation (ArraySet/OptionSet/SingletonSet/ArrayMap/OptionMap/SingletonMap, harness TinySet/TinyMap as Extend receivers), including cross-representation comparisons; VecUnion (length <= 2) against the index-wise-merge-with-extension model; UnionFind (items {0,1,2}, reachable states) against an equivalence-closure matrix (thorough tier). These are bounded by operand size, not proved."""
 
 CLAIMS = {
     "C01": {
@@ -53,9 +53,14 @@ CLAIMS["C09"] = {
             "operation tables (every binary/unary operation on the carrier at once) and must return Ok exactly when the law, written from its "
             "mathematical statement, holds on all tuples: complete for each N in {1,2} (quick) and N = 3 (thorough); loops are bounded by "
             "N^3 with unwinding assertions on. Composite checkers (semigroup ... field) return Ok exactly when the component checkers of the "
-            "structure's definition do (N <= 2). This is the property's own quantifier decided symbolically instead of sampled.",
-    "note": "Trusted: Kani+CBMC; carriers larger than 3 are not covered; the composite harnesses are checked against the component checkers' "
-            "results (modular), N <= 2; semiring_application.rs (u32/f64 applications) is not yet under contract.",
+            "structure's definition do (N <= 2); in addition Verus proves, for every carrier type, every N and every closure, that each of the 11 "
+            "composite checkers (real bodies) returns Ok exactly when all laws of the structure it names hold, modularly against the leaf "
+            "checkers' contracts (Ok <=> law). The semiring applications BinaryTrust, Multiplicity and Cost of semiring_application.rs (add / mul / "
+            "zero / one bodies) are verified by Verus against abstract semirings whose laws are proved, with the no-overflow condition as an "
+            "explicit precondition. This is the property's own quantifier decided symbolically instead of sampled.",
+    "note": "Trusted: Kani+CBMC, Verus+Z3; leaf checkers are decided for carriers of 1..3 elements only (their loops use cartesian_power, outside "
+            "Verus' subset), so the composites' unbounded proof rests on leaf contracts that are established bounded; Clone is assumed to return an "
+            "equal value; the f64 applications (ConfidenceScore, FuzzyLogic) are excluded.",
     "technique": "contract-based verification: Kani harness contracts (Ok <=> law) over symbolic operation tables on the real crate",
     "design": "DESIGN.md §5 C09, §6.1",
 }
